@@ -34,7 +34,7 @@ func (c23) Describe() engine.Info {
 	return engine.Info{
 		Rule: "class program: generated program of 10..120 steps over {write random byte to SB, write random byte to SC, read SB/SC into a buffer, start an OAM DMA, poke timer/LCD/sound registers, EI/DI with timer and VBlank interrupts enabled (handlers return at once), NOP runs}, serial writer attached or nil; class rom: blargg ROMs run as guests, their SB writes snooped by decoding the store instruction at every instruction boundary of the real CPU. " +
 			"Oracle: bytes delivered to the writer == sequence of SB writes (exactly once, in order, nothing else); nothing delivered and no crash with a nil writer; SB and SC read FF. Signature = (class, what preceded the SB write: SC value class / DMA running / interrupt dispatched / LCD on)." +
-			" Read-modify-write instructions on SB count as writes; if a program leaves its path the SB stores actually executed are the oracle; class pair: two instances with slow writers interleaved by the scheduler. Class program-long-line: >65,536 consecutive SB stores none of which is a line feed; class program-traced: instruction trace on (standard output captured), no writer: standard output equals that of the same run with a writer. With no writer configured standard error is watched as well.",
+			" Read-modify-write instructions on SB count as writes; if a program leaves its path the SB stores actually executed are the oracle; class pair: two instances with slow writers interleaved by the scheduler. Class program-long-line: >65,536 consecutive SB stores none of which is a line feed; class program-traced: instruction trace on (standard output captured), no writer: standard output equals that of the same run with a writer. With no writer configured standard error is watched as well. Stores to SB every seventh cycle in all seven alignments after a transfer request; the recorder is a closable writer and must stay open.",
 		Assumptions:    []string{"writer errors make the emulator panic by design; the statement is silent on them and they are not injected", "ROM SB writes are recognised for the store forms LDH (n),A / LD (C),A / LD (nn),A / LD (HL),r / LD (HL),n / LD (rr),A / LD (HL+-),A"},
 		RequiredProbes: []string{"sb_writes", "sb_write_after_sc_external_clock", "sb_write_during_dma", "nil_writer_runs", "sb_sc_reads", "rom_sb_writes", "blocked_in_writer_while_other_instance_runs", "program_continued_after_cleanup", "traced_without_writer", "long_line"},
 		RealComponents: realComponents, StubComponents: stubComponents,
